@@ -193,11 +193,11 @@ def run(chk):
         chk.evals(nh)
         chk.part('held', histories=nh)
     chk.cov['rule'] = ('TLC enumerates strength medians x load/strength median ratios (steps of 1/20 decade) x scatter pairs that are legs of Pythagorean triples (in 1/100 decade; leg 0 = deterministic load), '
-                       'for which the probit of the analytic failure probability is an exact rational, and proves the order/mirror/limit laws on it; every state is evaluated through FailureProbability '
+                       'incl. slender pairs (ratios 4.5, 20, 200) and medians up to 2.8 decades apart (probits beyond +-7), for which the probit of the analytic failure probability is an exact rational, and proves the order/mirror/limit laws on it; every state is evaluated through FailureProbability '
                        '(pf_simple_load, pf_norm_load incl. explicit limits and vanishing load scatter, pf_arbitrary_load on sampled log-normal densities of two resolutions). '
                        'Non-trivial = different medians and a scattering load.')
     chk.cov['exhaustive'] = True
-    chk.assumptions += ['"stays in [0, 1]" is read up to rounding (1e-12): the quadrature returns 1.0000000000000002 for probits above 8', 'scipy.stats.norm.cdf of the exact probit is the reference value; agreement is required to 1e-9 absolute + 1e-5 of the smaller tail (the quadrature is asked for its default accuracy)',
+    chk.assumptions += ['"stays in [0, 1]" is read up to rounding (1e-12): the quadrature returns 1.0000000000000002 for probits above 8', 'scipy.stats.norm.cdf of the exact probit is the reference value; agreement is required to 1e-9 absolute + 1e-5 of the smaller tail; for values between 1e-12 and 1e-6 to 0.1 % of the value; for values below 1e-12 (outside the range of the property) only that the answer is below 1e-12 too',
                         'pf_arbitrary_load is given the density on +-12 standard deviations around the load median; convergence = error at 3201 samples <= error at 401 samples and <= 1e-10 + 1e-6 of the smaller tail']
 
 
